@@ -119,6 +119,7 @@ std::ostream& operator<<(std::ostream& os, const Real& a);
 Real fresh(const std::string& name);                 // fresh symbolic real (or the model value in concrete mode)
 Real fresh(const std::string& name, uint8_t sign);   // with sign knowledge; the constraint is added to the path
 Real from_expr(const z3::expr& e, uint8_t sign = 0);
+Real exact(double v);           // the exact rational value of a double as a constant term (later arithmetic is exact)
 Real rational(long p, long q);  // exact rational constant kept as a term (arithmetic on it is exact, not double)
 Real exact_mul(const Real& a, const Real& b);  // product as an exact rational term even when both operands are concrete doubles
 Real ite(const z3::expr& c, const Real& a, const Real& b);
